@@ -118,6 +118,35 @@ theorem sortKeys_perm (l : List OKey) : (sortKeys l).Perm l := by
     unfold sortKeys
     exact (okeyInsertSorted_perm k _).trans (List.Perm.cons k ih)
 
+/-! ## `OKey` is `OrderedKey` up to its `Ord`-equality: distinct `OKey`s are distinct `BTreeMap` keys -/
+
+theorem lexCmp_eq_iff : ∀ (a b : List Nat), lexCmp a b = .eq ↔ a = b
+  | [], [] => by simp [lexCmp]
+  | [], _ :: _ => by simp [lexCmp]
+  | _ :: _, [] => by simp [lexCmp]
+  | x :: xs, y :: ys => by
+    unfold lexCmp
+    by_cases h1 : x < y
+    · rw [if_pos h1]; simp; intro e; omega
+    · rw [if_neg h1]
+      by_cases h2 : y < x
+      · rw [if_pos h2]; simp; intro e; omega
+      · rw [if_neg h2, lexCmp_eq_iff xs ys]
+        have : x = y := by omega
+        simp [this]
+
+theorem okey_cmp_eq_iff (a b : OKey) : OKey.cmp a b = .eq ↔ a = b := by
+  cases a with
+  | float x =>
+    cases b with
+    | float y => cases x <;> cases y <;> simp [OKey.cmp, icmp_eq_iff]
+    | _ => simp [OKey.cmp, OKey.rank]
+  | bool x =>
+    cases b with
+    | bool y => cases x <;> cases y <;> simp [OKey.cmp]
+    | _ => simp [OKey.cmp, OKey.rank]
+  | _ => cases b <;> simp [OKey.cmp, OKey.rank, icmp_eq_iff, lexCmp_eq_iff]
+
 /-! ## the key-ordered range lookup lists the same ids as `rangeLookup` -/
 
 omit [DecidableEq κ] in
